@@ -1,11 +1,17 @@
-GO_PKG = "."
-GO_PKGNAME = "dht"
-HARNESS = ["dht/sim_test.go", "dht/lookup_test.go", "dht/world_test.go", "dht/c03_test.go"]
-GO_TEST = "TestVerifC03"
+# two runs: the nine operations of the standard client (internal test package), and value lookups of the accelerated
+# and the dual client through the public API over the scripted network of the C04 harness (external test package)
+GO_RUNS = [
+    {"pkg": ".", "pkgname": "dht", "test": "TestVerifC03", "share": 0.82,
+     "harness": ["dht/sim_test.go", "dht/lookup_test.go", "dht/world_test.go", "dht/c03_test.go"]},
+    {"pkg": ".", "pkgname": "dht_test", "test": "TestVerifC03F", "share": 0.18,
+     "harness": ["dht/c04_test.go", "dht/c03f_test.go"]},
+]
 RUN_MODULE = "Run_C03"
-COQ_TARGETS = ["Corr/Run_C03.vo", "Proofs/LookupConvergence.vo", "Proofs/OptProvideProofs.vo", "Proofs/FollowupProofs.vo"]
-N = {"quick": 270, "thorough": 5400}
-RULE = ("the nine public routing operations (GetClosestPeers, FindPeer, GetValue, SearchValue, FindProviders, FindProvidersAsync, PutValue, classic "
+COQ_TARGETS = ["Corr/Run_C03.vo", "Corr/Run_C03F.vo", "Proofs/LookupConvergence.vo", "Proofs/OptProvideProofs.vo", "Proofs/FollowupProofs.vo"]
+N = {"quick": 330, "thorough": 6600}
+RULE = ("second run (18% of the cases): SearchValue / GetValue of the accelerated (fullrt) and the dual client with quorums that stop the reader "
+        "while many peers still answer; the call must return and the bubble must end with no goroutine of the operation left blocked after Close "
+        "and after every timer fired (the caller's context stays alive). First run: the nine public routing operations (GetClosestPeers, FindPeer, GetValue, SearchValue, FindProviders, FindProvidersAsync, PutValue, classic "
         "Provide, optimistic Provide with a primed network-size estimator) on random networks whose peers answer, fail the dial, fail the request, stay "
         "silent until the 10 s read timeout or answer late; optional cancellation instant and context deadline; 12% (30% for optimistic provide) of "
         "the cases make every peer fail; one call released at a time under testing/synctest, virtual time advanced only when nothing is parked; "
